@@ -508,6 +508,7 @@ def run_case(case, extra=None):
         "n_ops": nops,
         "n_sessions": len(case["sessions"]),
         "statuses": {s: statuses.count(s) for s in set(statuses)},
+        "had_timeout": "timeout" in statuses or stats.get("inconclusive", 0) > 0,
         "contexts": wres["contexts"],
         "cache_hits": wres["cache_hits"],
         "counter_end": wres["counter_end"],
